@@ -14,7 +14,8 @@ RULE = ("one case = an identity (random subset of object ids 0-6 / 0x80-0xFF, va
         "ReadDeviceInformationRequest.execute -> Response.encode -> real ClientDecoder; read codes 1-4 enumerated "
         "(plus 0, 5, 6, 255 for the guard), start ids = 0, every populated id, category edges (2,3,6,7,8,0x7f,0x80,0xff) "
         "and, for one multi-page identity, all 256 start ids x 4 codes; direct-execute cases for out-of-byte-range "
-        "fields.  The ModbusControlBlock identity (a class-level dict) is reset between cases.  non-trivial = a normal "
+        "fields; suite multi: bytes / ASCII str / non-ASCII str / list values (0-4 items), split and no-split "
+        "constellations.  The ModbusControlBlock identity (a class-level dict) is reset between cases.  non-trivial = a normal "
         "response with at least one object; distinct = distinct Coq case terms")
 TRUSTED = [
     "generated from source on every run (Generated/GenDevInfo.v): 253 - 6, 2 + len(data), <= 0, the range bounds and "
@@ -25,8 +26,8 @@ TRUSTED = [
     "try/for loop of encode, struct packing of single bytes, the while loop of decode",
     "spec side written from Modbus Application Protocol v1.1b3 section 6.21: category, expected, start_ok, max_pdu",
 ]
-ASSUMPTIONS = ["identity values are byte strings or ASCII text (one object per id; list-valued multi-item entries are "
-               "outside the property's quantifier)",
+ASSUMPTIONS = ["base model (DevInfo.v): identity values are byte strings or ASCII text, one object per id; list-valued "
+               "entries and arbitrary str values are covered by the extended model DevInfoMulti.v",
                "object ids 7..0x7f are not populated (the property's identities)"]
 
 IMPORTS = ("From PM.theories Require Import Base Expr DevInfo CorrDevInfo.\n"
@@ -500,7 +501,10 @@ MANIFEST = {
              "category from the start id on, each once, in order; individual access returns the single object; for "
              "other starts bound and termination; the client decoder inverts the encoder. Refuted and delimited: a "
              "245-byte object (the same empty page forever; 7+2+245 > 253 shows no implementation could return it), "
-             "read code 0 (KeyError instead of exception 03). Correspondence: whole request chains through the real "
+             "read code 0 (KeyError instead of exception 03). Extended model for list-valued entries and str values "
+             "(len vs encoded length as two fields): conservative over the base model; a split list is re-sent from "
+             "its first item / loops forever, non-ASCII text breaks the 253-byte bound (both refuted by witness), the "
+             "bound holds when len = encoded length. Correspondence: whole request chains through the real "
              "ServerDecoder/ClientDecoder over random identities, codes 0-6, all 256 start ids."),
     "note": ("Trusted: Coq kernel; translator template matching; hand-written dict/loop/struct glue validated by "
              "correspondence evaluated with vm_compute; spec-side category/expected definitions."),
